@@ -45,7 +45,7 @@ class IliSim(Sim):
                                      'lookup table %s' % k, {'op': op})
         f = self.ilif[op['file']]
         used = {r[1] for o in after['lexicons'].values() for r in o.get('synsets', []) if r[1]}
-        if used & {r['ili'] for r in f['rows']}:
+        if used & {r.get('ili') for r in f['rows']}:
             self.probe('index-over-used-ilis')
         # idempotence
         path, _ = self.materialise_ili(f, op.get('route', 'xml'))
@@ -81,7 +81,7 @@ class IliSim(Sim):
         # public API: every observable ILI reports the model's status and definition
         if not self.m.installed:
             api = {i.id: [i.status, i.definition()] for i in wn.ilis() if i.id}
-            if api != want:
+            if api != {k: v for k, v in want.items() if k}:
                 raise self.violation('ili-api', 'wn.ilis() of an empty database differs from '
                                      'the model', {'observed': api, 'expected': want})
             return
